@@ -72,9 +72,17 @@ def install_scan_hook(rec: Recorder):
 
         def search(self, *a, **k):
             rec.events.append(("scan", "search", k.get("pattern", a[0] if a else None), k.get("string", a[1] if len(a) > 1 else None)))
-            return rx.search(*a, **k)
+            m = rx.search(*a, **k)
+            if m is not None:
+                rec.events.append(("span", m.start(), m.end()))
+            return m
 
         def finditer(self, *a, **k):
             rec.events.append(("scan", "finditer", k.get("pattern", a[0] if a else None), k.get("string", a[1] if len(a) > 1 else None)))
-            return rx.finditer(*a, **k)
+
+            def gen():
+                for m in rx.finditer(*a, **k):
+                    rec.events.append(("span", m.start(), m.end()))
+                    yield m
+            return gen()
     co.regex = Proxy()
